@@ -351,10 +351,12 @@ func (p *asyncProducer) dispatcher() {
 				continue
 			}
 			p.inFlight.Add(1)
-		}
 
-		for _, interceptor := range p.conf.Producer.Interceptors {
-			msg.safelyApplyInterceptor(interceptor)
+			// interceptors see a message exactly once, on its first pass: retried
+			// messages and the internal fin markers come through here again
+			for _, interceptor := range p.conf.Producer.Interceptors {
+				msg.safelyApplyInterceptor(interceptor)
+			}
 		}
 
 		version := 1
